@@ -156,3 +156,10 @@
 
 (lemma pow2_254 (= (bits.pow2 254) 28948022309329048855892746252171976963317496166410141009864396001978282409984) :reveal (bits.pow2))
 (lemma pow2_256 (= (bits.pow2 256) 115792089237316195423570985008687907853269984665640564039457584007913129639936) :lemmas (pow2_254 pow2_step))
+
+; splitting a range
+(lemma allboolFrom_append
+  (forall ((b (Array Int Int)) (j Int) (m Int) (n Int))
+    (! (=> (and (<= j m) (<= m n)) (= (bits.allboolFrom b j n) (and (bits.allboolFrom b j m) (bits.allboolFrom b m n))))
+       :pattern ((bits.allboolFrom b j m) (bits.allboolFrom b m n))))
+  :lemmas (allboolFrom_elem allboolFrom_intro))
